@@ -4,6 +4,7 @@ All theorems are about the executable model `MxlVerif/Model/C05.lean` (the same 
 driver runs).  Only property theorems and non-vacuity examples live here.
 -/
 import MxlVerif.Lemmas.C05Int
+import MxlVerif.Lemmas.C05Raw
 import MxlVerif.Generated.C05Facts
 namespace Mxl.C05
 
@@ -443,6 +444,30 @@ theorem C05_model_dynamics_int {b : Base} {lv : List (Name × Nat)}
   unfold baseRhsOf
   have hfa := mapM_ok_forall₂ _ _ _ hg
   exact forall₂_map_sum _ _ hfa (fun r grp hmem hgr => group_dynamicsI hgr (hr r hmem) σ hσ x)
+
+/-- **coefficients that are not Python `int`s** (what the driver runs, `buildModelP`): the
+    isotopomer mapper unpacks a *mapped* reaction's stoichiometry with `v < 0` and `[k] * v`, so only
+    `int` coefficients pass (`intCoefs` succeeds exactly on them and then returns them) and a `float`
+    — even `-1.0` — or a `Derived` coefficient is a `TypeError` whatever the map; an unmapped reaction
+    is passed through without being unpacked; with no raw coefficients listed the entry point is
+    `buildModelI` -/
+theorem C05_noninteger_coefficients (lv : List (Name × Nat)) (maps : List (Name × List Int))
+    (raw : List (Name × List (Name × Coef))) (r : BRxn) :
+    (∀ st ist, intCoefs st = .ok ist ↔ st = ist.map fun kv => (kv.1, Coef.int kv.2)) ∧
+    (∀ st e, intCoefs st = .error e → e = .typeError) ∧
+    (∀ lm st, maps.lookup r.name = some lm → raw.lookup r.name = some st →
+      (¬ ∃ ist : List (Name × Int), st = ist.map fun kv => (kv.1, Coef.int kv.2)) →
+      buildRxnP lv maps raw r = .error .typeError) ∧
+    (maps.lookup r.name = none → buildRxnP lv maps raw r = .ok [unmappedRxn lv r]) ∧
+    (∀ b il, buildModelP b lv maps [] il = buildModelI b lv maps il) := by
+  refine ⟨intCoefs_ok_iff, fun st e h => intCoefs_error h, ?_, ?_, fun b il => buildModelP_nil b lv maps il⟩
+  · intro lm st hl hr hno
+    simp only [buildRxnP, hl, hr]
+    cases hi : intCoefs st with
+    | ok ist => exact absurd ⟨ist, (intCoefs_ok_iff st ist).mp hi⟩ hno
+    | error e => rw [intCoefs_error hi]; rfl
+  · intro hl
+    simp [buildRxnP, hl, pure, Except.pure]
 
 /-- the facts regenerated from the current `label_map.py` by `translate/c05.py` are the ones the
     model is written for: every mirrored function has its modelled statement shape (no decorator,
